@@ -111,8 +111,35 @@ func main() {
 	if stErr != nil {
 		inconclusive(*prop, *tier, seed, "engine self-test failed: "+stErr.Error(), *noEvidence)
 	}
+	symN := 0
+	if *prop != "ENGINE" {
+		// symbolic self-test (harness/spec/ENGINE.json): VH_E_ok_* proved, VH_E_bad_* refuted
+		if es, err := loadSpec("ENGINE"); err == nil {
+			for _, r := range runProperty(p, es, RunOptions{Prop: "ENGINE", Tier: "quick", Workers: *workers}) {
+				if r == nil {
+					continue
+				}
+				name := r.Item.Spec.Func
+				bad := strings.HasPrefix(name, "VH_E_bad_")
+				switch {
+				case r.Fatal != "":
+					inconclusive(*prop, *tier, seed, "engine symbolic self-test: "+name+": "+r.Fatal, *noEvidence)
+				case bad && len(r.Violations) == 0:
+					inconclusive(*prop, *tier, seed, "engine symbolic self-test: "+name+" must be refuted but no counterexample was found", *noEvidence)
+				case !bad && (len(r.Violations) > 0 || len(r.Inconclusive) > 0):
+					inconclusive(*prop, *tier, seed, fmt.Sprintf("engine symbolic self-test: %s must be proved: %d violations, inconclusive %v", name, len(r.Violations), r.Inconclusive), *noEvidence)
+				}
+				for _, w := range r.Item.Spec.Reach {
+					if r.Reached[w] == 0 {
+						inconclusive(*prop, *tier, seed, "engine symbolic self-test: "+name+" did not reach "+w, *noEvidence)
+					}
+				}
+				symN++
+			}
+		}
+	}
 	if *selftest {
-		fmt.Printf("self-test ok: %d vectors\n", stN)
+		fmt.Printf("self-test ok: %d vectors, %d symbolic harnesses\n", stN, symN)
 		return
 	}
 	results := runProperty(p, spec, RunOptions{Prop: *prop, Tier: *tier, Workers: *workers, Only: *only, Verbose: *verbose, Seed: seed})
